@@ -160,13 +160,14 @@ def sInit (j : Json) : Except String (DState × Json) := do
   let base : DState := { kind := .stateless, sched := getBoolD j "sched" false, space := space, rimm := rimm,
                          rst := RState.init [], gimm := gimm0, gst := g0, pbt := pbt }
   let sizeJ := match size with | some n => jNat n | none => Json.null
+  let wfJ := Json.bool (Space.wfb space)
   if kind == "stateless" || kind == "pbt" then
     let k := if kind == "pbt" then Kind.pbt else Kind.stateless
-    return ({ base with kind := k }, jOut (jObj [("size", sizeJ), ("hp_keys", jArr ((sortedHpKeys space).map Json.str))]))
+    return ({ base with kind := k }, jOut (jObj [("size", sizeJ), ("wf", wfJ), ("hp_keys", jArr ((sortedHpKeys space).map Json.str))]))
   let init ← liftE (imputePoints space hints p2e)
   if kind == "random" then
     return ({ base with kind := .random, rst := RState.init init },
-            jOut (jObj [("init", jArr (init.map jConfig)), ("size", sizeJ)]))
+            jOut (jObj [("init", jArr (init.map jConfig)), ("size", sizeJ), ("wf", wfJ)]))
   else if kind == "grid" then
     let numPts ← (if hasKey j "num_pts" then do
       (← getArr j "num_pts").mapM fun kv => do
@@ -183,7 +184,7 @@ def sInit (j : Json) : Except String (DState × Json) := do
       | .ok _ => do return some (← getNatList j "perm"))
     let (keys, gs) ← liftE (GState.create space numPts perm init)
     return ({ base with kind := .grid, gimm := { gimm0 with hpKeys := keys }, gst := gs },
-            jOut (jObj [("init", jArr (init.map jConfig)), ("size", sizeJ), ("hp_keys", jArr (keys.map Json.str)),
+            jOut (jObj [("init", jArr (init.map jConfig)), ("size", sizeJ), ("wf", wfJ), ("hp_keys", jArr (keys.map Json.str)),
                         ("combos", jArr (gs.combos.map fun c => jArr (c.map jVal)))]))
   else throw s!"bad kind {kind}"
 
